@@ -10,7 +10,7 @@ theorem exec_pc_other {t' : Nat} (h : t' ≠ t) : (exec cfg reg s t).pc t' = s.p
   exec_cases
   all_goals simp [upd_apply, h]
 
-theorem begin_pc_other {t' : Nat} (h : t' ≠ t) : (begin reg s t).pc t' = s.pc t' := by
+theorem begin_pc_other {t' : Nat} (h : t' ≠ t) : (begin cfg reg s t).pc t' = s.pc t' := by
   begin_cases
   all_goals simp [upd_apply, h]
 
@@ -28,7 +28,7 @@ theorem exec_owns_new {x : Nat} (h : ((exec cfg reg s t).pc t).owns = some x) :
   all_goals (intro h; try simp [upd_apply, afterLists, nextList] at h)
   all_goals grind [Pc.owns]
 
-theorem begin_owns_new {x : Nat} (h : ((begin reg s t).pc t).owns = some x) : (s.pc t).owns = some x := by
+theorem begin_owns_new {x : Nat} (h : ((begin cfg reg s t).pc t).owns = some x) : (s.pc t).owns = some x := by
   revert h
   begin_cases
   all_goals (intro h; try simp [upd_apply] at h)
@@ -40,7 +40,7 @@ theorem exec_cst_created {x : Nat} (h : (exec cfg reg s t).cst x = .created) : s
   all_goals (intro h; try simp [upd_apply] at h)
   all_goals grind
 
-theorem begin_cst {x : Nat} : (begin reg s t).cst x = s.cst x := by
+theorem begin_cst {x : Nat} : (begin cfg reg s t).cst x = s.cst x := by
   begin_cases
   all_goals simp
 
@@ -73,7 +73,7 @@ theorem ownsUnique_exec (hS : Struct reg s) :
     exact hS.ownsUnique _ _ _ h1 h2
 
 theorem ownsUnique_begin (hS : Struct reg s) :
-    ∀ t1 t2 x, ((begin reg s t).pc t1).owns = some x → ((begin reg s t).pc t2).owns = some x → t1 = t2 := by
+    ∀ t1 t2 x, ((begin cfg reg s t).pc t1).owns = some x → ((begin cfg reg s t).pc t2).owns = some x → t1 = t2 := by
   intro t1 t2 x h1 h2
   by_cases e1 : t1 = t <;> by_cases e2 : t2 = t
   · rw [e1, e2]
